@@ -126,7 +126,7 @@ func (f *Iterate) Call(s *slip.Scope, args slip.List, depth int) slip.Object {
 			if caller != nil {
 				_ = caller.Call(s, slip.List{inst}, d2)
 			} else {
-				channel <- inst
+				channel.Push(inst)
 			}
 		} else {
 			row := make(slip.List, len(rec))
@@ -140,7 +140,7 @@ func (f *Iterate) Call(s *slip.Scope, args slip.List, depth int) slip.Object {
 			if caller != nil {
 				_ = caller.Call(s, slip.List{row}, d2)
 			} else {
-				channel <- row
+				channel.Push(row)
 			}
 		}
 	}
